@@ -223,6 +223,9 @@ class C16(Prop):
                     v.info['neighbour-specs'] = 1
                 except Exception:
                     pass
+        # a third of the cases on the offline-only class
+        okind = 'dt_off' if (len(text) + n1) % 3 == 0 else 'dt'
+        v.info['class:' + ('offline-only-class' if okind == 'dt_off' else 'combined-class')] = 1
         try:
             if case.get('same_object'):
                 sdo = {'text': text, 'vars': list(names)}
@@ -230,7 +233,7 @@ class C16(Prop):
                     from rtverif.props.c09 import modular_sd
                     sdo = modular_sd(case['modular'], list(names))
                     v.info['class:modular'] = 1
-                mo = drive.Mon('dt', sdo)
+                mo = drive.Mon(okind, sdo)
                 v.info['class:same-object'] = 1
                 if case.get('failing_first'):
                     bad = drive.dt_dataset(data, n2)
@@ -242,8 +245,8 @@ class C16(Prop):
                 r1 = drive.values(mo.evaluate(drive.dt_dataset(data, n1)))
                 r2 = drive.values(mo.evaluate(drive.dt_dataset(data, n2)))
             else:
-                r1 = drive.values(drive.dt_offline(text, names, data, n1, times=times and times[:n1], sd=sd))
-                r2 = drive.values(drive.dt_offline(text, names, data, n2, times=times, sd=sd))
+                r1 = drive.values(drive.dt_offline(text, names, data, n1, times=times and times[:n1], sd=sd, kind=okind))
+                r2 = drive.values(drive.dt_offline(text, names, data, n2, times=times, sd=sd, kind=okind))
         except Exception as e:
             v.bad('raises:' + type(e).__name__, '%s: evaluate raised %s: %s' % (text, type(e).__name__, e))
             return v
